@@ -222,12 +222,17 @@ Definition resp_eqb (a b : response) : bool :=
    functions are proved to hold of [handle r] for every request (Proofs_Origin.v) and are
    evaluated by the harness on the responses of the real server (monitors T1..T5). *)
 
-(* the acceptance condition of the property text, on the transcribed netloc *)
+(* the acceptance condition of the property text, on the transcribed netloc.  It is the
+   reading most favourable to the implementation (host names and allow-list entries compared
+   case-insensitively on both sides), so that a monitor built on it never alarms on a
+   behaviour the property text permits; the theorems about the model prove the stricter
+   condition the code really implements (Host compared as sent). *)
 Definition origin_permitted (allow : list str) (host : option str) (o : str) : bool :=
   let n := raw_netloc o in
   match n with
   | [] => true
-  | _ => opt_eqb str_eqb (Some (lower n)) host || mem_str (lower n) allow
+  | _ => opt_eqb str_eqb (Some (lower n)) (option_map lower host)
+         || mem_str (lower n) (map lower allow)
   end.
 
 Definition cors_granted (p : response) : bool := is_some (acao p) || acah p.
@@ -235,7 +240,7 @@ Definition is_refused (p : response) : bool := 400 <=? status p.
 
 Definition t1_post_gate (r : request) (p : response) : bool :=
   implb (kind_eqb (r_kind r) Post && r_csrf r && reaches_core p)
-        (str_eqb (media_type (r_ctype r)) app_json).
+        (str_eqb (lower (media_type (r_ctype r))) app_json).
 
 Definition t2_preflight_sound (r : request) (p : response) : bool :=
   implb (kind_eqb (r_kind r) Options && r_csrf r)
